@@ -61,6 +61,13 @@ theorem take_nodup {α} (x : List α) (idx : List Nat) (hx : x.Nodup) (hi : idx.
   obtain ⟨hjl, hje⟩ := List.getElem?_eq_some_iff.mp hbj
   exact (List.Nodup.getElem_inj_iff hx).mp (hie.trans hje.symm)
 
+theorem take_map' {α β} (φ : α → β) (x : List α) (idx : List Nat) : take (x.map φ) idx = (take x idx).map φ := by
+  unfold take
+  rw [List.map_filterMap]
+  congr 1
+  funext i
+  simp [List.getElem?_map]
+
 theorem indicesIn_nodup (d r : List Int) : (indicesIn d r).Nodup := by
   unfold indicesIn Py.whereTrue
   exact List.nodup_range.filter _
@@ -81,6 +88,18 @@ theorem applyLocationRW_congr_nodup {α} (f f' : WinFn α)
   unfold windowWrites
   have hw : (take fut (idxWindow L dF c)).Nodup := take_nodup fut _ hnd (indicesIn_nodup dF _)
   simp only [hff _ _ _ _ _ _ hw]
+
+/-- the same for any guard that holds on every future window sample of the run -/
+theorem applyLocationRW_congr_on {α} (f f' : WinFn α) (Pw : List α → Prop)
+    (hff : ∀ o h x io ih ix, Pw x → f o h x io ih ix = f' o h x io ih ix)
+    (L S : Int) (dO dH dF : List Int) (obs hist fut : List α)
+    (hP : ∀ c ∈ useCenters S dF, Pw (take fut (idxWindow L dF c))) :
+    applyLocationRW f L S dO dH dF obs hist fut = applyLocationRW f' L S dO dH dF obs hist fut := by
+  unfold applyLocationRW
+  apply Lemmas.Lift.runLoop_congr
+  intro c hc
+  unfold windowWrites
+  simp only [hff _ _ _ _ _ _ (hP c hc)]
 
 /-! ### ScaledDistributionMapping (absolute) -/
 
